@@ -295,7 +295,7 @@ def main():
         if c.src in ("slice", "nested") or c.names[1] == "rev":
             chosen.append(c)
     if args.tier == "quick":
-        chosen += rng.sample(level2, 12)
+        chosen += rng.sample(level2, 8)
     else:
         chosen += level1 + level2 + rng.sample(level3, min(150, len(level3)))
     # always include the shapes named by the finding and the documented exceptions
@@ -308,7 +308,7 @@ def main():
     # three-adapter chains in which the iteration direction has to flow through a state-carrying
     # adapter into a direction-sensitive one (always included)
     must3 = [("slice", "rev", "enumerate", "zip_slice"), ("slice", "rev", "skip", "zip_range"), ("slice", "rev", "take", "flat_map"),
-             ("slice", "rev", "skip_while", "flat_map"), ("nested", "flatten", "rev", "zip_slice"), ("slice", "flat_map", "rev", "flat_map"),
+             ("slice", "rev", "skip_while", "flat_map"), ("nested", "flatten", "rev", "zip_slice"),
              ("iter_copied", "rev", "enumerate", "flat_map"), ("range", "rev", "skip", "zip_slice")]
     for c2 in level2:
         if any(tuple(c2.names) == m[:3] for m in must3):
@@ -331,7 +331,7 @@ def main():
         elif args.tier == "quick" and len(ch.names) == 2:
             # every adapter with a seeded rotating subset of the consumers (all of them in the thorough tier)
             k0 = rng.randrange(len(cons_all))
-            cons = [cons_all[(k0 + j * 3) % len(cons_all)] for j in range(5)] + ["for_each"]
+            cons = [cons_all[(k0 + j * 3) % len(cons_all)] for j in range(4)] + ["for_each"]
         else:
             cons = cons_all
         for cname in dict.fromkeys(cons):
